@@ -40,6 +40,8 @@ FamilyConfigs(p) ==
            Cfgs(AllValid, Both, {<<Omit>>})
       [] p = "request" ->     \* ... and at request level, against contrasting pool timeouts
            Cfgs(Contrast, Both, {<<r>> : r \in ValidObjs \cup ValidNums})
+      [] p = "request_q" ->   \* quick tier: the same against two contrasting pool timeouts only
+           Cfgs({Obj(500, 500, 500), Num(2000)}, Both, {<<r>> : r \in ValidObjs \cup ValidNums})
       [] p = "invalid" ->     \* every invalid construction, at pool level and at request level
            Cfgs(InvalidObjs \cup InvalidNums, {"http"}, {<<Omit>>})
            \cup Cfgs({Omit, Obj(500, 500, 500)}, {"http"}, {<<r>> : r \in InvalidObjs \cup InvalidNums})
@@ -74,6 +76,7 @@ DevE   == {"negativeread"}
 DevF   == {"mergepool"}
 DevG   == {"noreapply"}
 PA == {"pool", "request", "invalid"}
+PQ == {"pool", "request_q", "invalid"}
 PB == {"shared"}
 PC == {"shared", "shared_https", "mixed", "mixed_https"}
 PD == {"three"}
